@@ -38,6 +38,9 @@ div_t div(int n, int d) { div_t r; r.quot = n / d; r.rem = n % d; return r; }   
 #ifndef VF_DBL
 #define VF_DBL 0
 #endif
+#ifndef VF_FDM
+#define VF_FDM 0
+#endif
 #ifndef VF_SIMD               /* 1: back end with its own output buffer + scratch (pffft), 0: in place (fft4g) */
 #define VF_SIMD 0
 #endif
@@ -74,7 +77,11 @@ VF_MAIN
   st.shared = &sh; st.dft_filter_num = 0; st.rdft_cb = vf_cb;
   st.core_flags = (VF_DBL? CORE_DBL : 0) | (VF_SIMD? CORE_SIMD_DFT : 0);
   st.dft_out = (float *)dftout; st.dft_scratch = scratch;
+#if VF_FDM      /* frequency-domain decimation by M = 2 or 4 (dft_stage_init: step.integer = -M/2) */
+  st.L = VF_L; st.step.integer = -(VF_M / 2);
+#else
   st.L = VF_L; st.step.integer = VF_M;
+#endif
   VF_ASSUME(in_at < VF_L && in_remM < VF_M);
   if (lsx_is_power_of_2(VF_L)) VF_ASSUME(in_at == 0 && overlap % VF_L == 0);   /* frequency-domain up-sampling: block-aligned (dft_stage_init k = 2L; KF_C14_POW2_NONLINEAR is the case where at != 0) */
   st.at.integer = (int)in_at; st.remM = (int)in_remM;
@@ -102,7 +109,10 @@ VF_MAIN
           "interpolation phase carried exactly to the next block: at' == at + consumed*L - block_len (C04)");
     else VF_ASSERT(st.at.integer == (int)in_at, "interpolation phase unchanged when L divides the block (C04)");
     if (lsx_is_power_of_2(VF_L)) VF_ASSERT(q * VF_L == block_len, "frequency-domain up-sampling consumes exactly block_len / L samples (C04)");
-#if VF_M > 1
+#if VF_FDM
+    VF_ASSERT(o * VF_M <= block_len + VF_M - 1 && o * VF_M >= block_len - (VF_M - 1) && st.remM == (int)in_remM,
+        "frequency-domain decimation: one output per M filtered samples of the block (C03/C04)");
+#elif VF_M > 1
     VF_ASSERT((int)in_remM + o * VF_M == block_len + st.remM && st.remM >= 0 && st.remM < VF_M,
         "decimation phase carried exactly: remM + produced*M == block_len + remM' (one output per M filtered samples over any number of blocks) (C03/C04)");
 #else
